@@ -99,7 +99,7 @@ class W:
         kind = ctx.cfg.get("curve") or ctx.ch.weighted([("secp256k1", 7), ("toy", 2), ("catalogued", 1)], "curve.kind")
         self.kind = kind
         if kind == "toy":
-            self.ec, self.ref, t = gc.toy_curve(ctx, p_ok=lambda p: p % 4 == 3, tries=40)
+            self.ec, self.ref, t = gc.toy_curve(ctx, p_ok=lambda p: p % 4 == 3 and p > 7, strict=True, tries=40)
             self.label = f"toy:p={t[0]},a={t[1]},b={t[2]},G={t[3]},n={t[4]},h={t[5]}"
         else:
             self.label = "secp256k1" if kind == "secp256k1" else ctx.ch.pick(OTHER_CURVES, "curve.name")
@@ -257,13 +257,14 @@ def _batch(w: W, arrivals: list[Member], verdicts: list[bool], where: str) -> No
 # the relay
 # ---------------------------------------------------------------------------
 def _no_y(w: W, x: int) -> int:
-    """The first x' >= x (cyclically) that is the x-coordinate of no point, by Euler's criterion."""
+    """The first x' >= x (cyclically) that is the x-coordinate of no point, by Euler's criterion; p if there is none."""
     p = w.ec.p
-    while True:
-        rhs = (x * x * x + w.ref.a * x + w.ref.b) % p
+    for i in range(p):
+        xi = (x + i) % p
+        rhs = (xi * xi * xi + w.ref.a * xi + w.ref.b) % p
         if rhs and pow(rhs, (p - 1) // 2, p) != 1:
-            return x
-        x = (x + 1) % p
+            return xi
+    return p
 
 
 def _corrupt(w: W, m: Member, signers: list[dict[str, Any]]) -> Member:
